@@ -112,11 +112,17 @@ def run(ctx):
     total_runs = 0
     nontrivial = set()
     conform = []
+    binp = ctx.go_build_test(PKG, FILES)      # one link for both drivers
     for name, run_, env in (("replay", "^TestVerif_C13_Replay$", {"VERIF_IN": inp}),
                             ("random", "^TestVerif_C13_Random$", {})):
-        rc, out, trace = ctx.driver(PKG, run_, FILES, env=env, out="trace_%s.ndjson" % name, timeout=14400)
-        if rc != 0:
+        trace = ctx.path("trace_%s.ndjson" % name)
+        env = dict(env, VERIF_OUT=trace)
+        rc, out = ctx.run_bin(binp, run_, env=env, timeout=14400)
+        with open(ctx.path("driver_%s.log" % name), "w") as fh:
+            fh.write(out)
+        if rc != 0 or "--- PASS" not in out:
             raise vk.Inconclusive("driver %s failed:\n%s" % (name, out[-3000:]))
+        ctx.log("driver %s done" % name)
         events = vk.read_ndjson(trace)
         acc, rej = ctx.validate_trace("Trace_Delta", "Trace_Delta.cfg", trace, name="tlc_" + name, timeout=14400)
         start, h = {}, -1
